@@ -465,7 +465,9 @@ META = {
              "Shell.Readline line by line: key scripts enumerated from the library's own default bind tables (all bound sequences, "
              "pairs, prefixes + ruling-out keys, numeric arguments, argument readers, random words), from 12 buffer shapes in all "
              "editing modes, with end of input and read errors injected at every wait index. A panic, hang, spin or dead process has no "
-             "action in the specification, so such a trace is rejected. Bounded exploration, not a proof."),
+             "action in the specification, so such a trace is rejected. Also: every registered command by name, every library variable, sessions inside "
+             "the completion menu, keyboard-macro words, and what the application does to the history sources between calls (HistSources model: "
+             "the active-source index never runs out of range). Bounded exploration, not a proof."),
     "note": "Trusted: TLC, the Go harness projection, the pty + emulator standing in for a terminal; hang = 10 s without reaching the input gate and reproduced in isolation.",
     "design_ref": "DESIGN.md §5 C01",
 }
